@@ -377,6 +377,79 @@ def impl_list(case):
         common.rmtree(root)
 
 
+def _list_queries(cases, root, stacks):
+    """several requests against the same stacks, one after the other in one process (the stacks are only read)"""
+    return [_list_query(c, root, stacks) for c in cases]
+
+
+def impl_list_family(job):
+    """job = (stacks description, [listing cases on it]): one child declares and tags, one child answers all the requests"""
+    config, cases = job
+    r = common.in_child(_list_build, config)
+    if r[0] != "ok":
+        raise common.InfraError("building the stacks of a listing family failed: %r" % (r,))
+    root, stacks = r[1]
+    try:
+        q = common.in_child(_list_queries, cases, root, stacks)
+        if q[0] != "ok":
+            raise common.InfraError("listing failed: %r" % (q,))
+        return q[1]
+    finally:
+        common.rmtree(root)
+
+
+def impl_list_families(jobs):
+    return [impl_list_family(j) for j in jobs]
+
+
+def enum_list_families(ctx, n):
+    """Exhaustive small enumeration for the listing: one stack with 1.9, 1.10, 1_10 (two spellings that compare equal) in every order of
+    declaration x `current` on one of them or on none x `beta` likewise, and against each every request of a fixed set
+    (6 version arguments x 5 tag lists).  n = number of stack configurations (None: all 96)."""
+    import itertools
+    vers = ["1.9", "1.10", "1_10"]
+    configs = []
+    for order in itertools.permutations(vers):
+        for cur in [None] + vers:
+            for beta in [None] + vers:
+                configs.append({"stacks": [[{"ver": v, "tags": [t for t, w in (("current", cur), ("beta", beta)) if w == v]} for v in order]]})
+    if n is not None and n < len(configs):
+        configs = ctx.rng.sample(configs, n)
+    args = [(">= 1.10", "expr", [[">=", "1.10"]]), ("< 1.10", "expr", [["<", "1.10"]]), ("== 1_10", "expr", [["==", "1_10"]]),
+            ("> 1.9 || == 1.9", "expr", [[">", "1.9"], ["==", "1.9"]]), ("1.1*", "glob", []), ("", "none", [])]
+    tagsets = [[], ["current"], ["latest"], ["beta", "current"], ["latest", "current"]]
+    jobs = []
+    for cf in configs:
+        cases = [{"kind": "list", "stacks": cf["stacks"], "version": a, "argkind": k, "terms": t, "pure": True, "tags": ts, "family": True}
+                 for a, k, t in args for ts in tagsets]
+        jobs.append((cf, cases))
+    return jobs
+
+
+def eval_list_families(ctx, jobs):
+    if not jobs:
+        return
+    nw = min(WORKERS, len(jobs))
+    chunks = [jobs[i::nw] for i in range(nw)]
+    outs = parallel_map(impl_list_families, chunks, workers=nw) if nw > 1 else [impl_list_families(jobs)]
+    impl = {}
+    for k, ch in enumerate(outs):
+        for j, v in enumerate(ch):
+            impl[k + j * nw] = v
+    cases, ios = [], []
+    for idx, (cf, cs) in enumerate(jobs):
+        cases += cs
+        ios += impl[idx]
+    reqs = [{"m": "c10", "op": "list", "version": c["version"], "tags": c["tags"], "stacks": c["stacks"], "preferred": io_["preferred"]}
+            for c, io_ in zip(cases, ios)]
+    answers = ctx.lean.ask_many(reqs)
+    for c, io_, ans in zip(cases, ios, answers):
+        if "bad-op" in ans:
+            raise common.InfraError("model refused %r: %s" % (c, ans["bad-op"]))
+        ctx.hist("list/enumerated-family")
+        eval_list(ctx, c, {k: v for k, v in c.items() if not k.startswith("_")}, io_, ans)
+
+
 def impl_small(jobs):
     out = []
     for c in jobs:
@@ -1077,9 +1150,9 @@ def gen_stacks(ctx, pool, n):
 # ---- generators -------------------------------------------------------------------------------------------
 
 SIZES = {   # name sets and case counts per tier; "search" is the budget of the hunt for a failing input after a correspondence break
-    "quick":    dict(g1404=300,  wide=330,  arb_sets=45,  match=2500,  latest=600,  stacks=130,  legal=600,  enum=1500, lists=110),
-    "search":   dict(g1404=1404, wide=700,  arb_sets=150, match=10000, latest=2000, stacks=450,  legal=2000, enum=8000, lists=400),
-    "thorough": dict(g1404=1404, wide=1600, arb_sets=600, match=40000, latest=8000, stacks=2500, legal=8000, enum=None, lists=2500),
+    "quick":    dict(g1404=300,  wide=330,  arb_sets=45,  match=2500,  latest=600,  stacks=130,  legal=600,  enum=1500, lists=110, families=3),
+    "search":   dict(g1404=1404, wide=700,  arb_sets=150, match=10000, latest=2000, stacks=450,  legal=2000, enum=8000, lists=400, families=12),
+    "thorough": dict(g1404=1404, wide=1600, arb_sets=600, match=40000, latest=8000, stacks=2500, legal=8000, enum=None, lists=2500, families=None),
 }
 
 
@@ -1258,6 +1331,8 @@ def run_sizes(ctx, sz):
     if pool and not ctx.out_of_time():
         eval_chunks(ctx, gen_lists(ctx, pool, sz["lists"]), 60)
         if not ctx.out_of_time():
+            eval_list_families(ctx, enum_list_families(ctx, sz["families"]))
+        if not ctx.out_of_time():
             for k, floor in LIST_FLOORS:
                 if ctx.histogram.get(k, 0) < floor:
                     raise common.InfraError("degenerate distribution: %d listing cases under %r (floor %d)" % (ctx.histogram.get(k, 0), k, floor))
@@ -1293,8 +1368,16 @@ def run_enlarged(ctx, sz, pool):
     the search after a correspondence break): every class gets a piece in turn, so that none is starved when time runs out."""
     def lists():
         cases = gen_lists(ctx, pool, sz["lists"])
-        for i in range(0, len(cases), 60):
+        fams = enum_list_families(ctx, sz["families"])
+        ctx.rng.shuffle(fams)
+        for i in range(0, max(len(cases), 1), 60):
             eval_small(ctx, cases[i:i + 60])
+            k = i // 60
+            eval_list_families(ctx, fams[k * 4:(k + 1) * 4])
+            yield
+        rest = fams[(max(len(cases), 1) + 59) // 60 * 4:]
+        for i in range(0, len(rest), 8):
+            eval_list_families(ctx, rest[i:i + 8])
             yield
 
     def stacks():
